@@ -7,7 +7,7 @@ mkdir -p evidence work replay
 [ -f harness/Cargo.lock ] || cp /repo/Cargo.lock harness/Cargo.lock
 (cd harness && CARGO_NET_OFFLINE=true cargo build --release --offline 2>&1 | tail -3)
 test -x harness/target/release/cvh
-for m in SLG SLGGround SLGGroundMC SLGTrace InPlace InPlaceMC InPlaceTrace Coherence Orphan Terms Unify InferMC CanonMC Guidance SubtypeMC MiniMC BuiltinMC AssocMC WfMC LogDb LoweringMC DisplayMC AutoMC ImplMC ApproxMC; do
+for m in SLG SLGGround SLGGroundMC SLGTrace InPlace InPlaceMC InPlaceTrace Coherence Orphan Terms Unify InferMC CanonMC Guidance SubtypeMC MiniMC BuiltinMC AssocMC WfMC LogDb LoweringMC DisplayMC AutoMC ImplMC ApproxMC GroundMeaning RecGround RecGroundMC; do
   (cd spec && java -cp /opt/veriftools/tla/tla2tools.jar:/opt/veriftools/tla/CommunityModules-deps.jar tla2sany.SANY $m.tla >/dev/null 2>&1) || { echo "SANY failed on $m"; exit 1; }
 done
 echo "setup ok"
